@@ -126,7 +126,14 @@ func mathLog(L *LState) int {
 }
 
 func mathLog10(L *LState) int {
-	L.Push(LNumber(math.Log10(float64(L.CheckNumber(1)))))
+	x := float64(L.CheckNumber(1))
+	v := math.Log10(x)
+	// Go computes log10 as log2(x) * (ln 2 / ln 10), which misses the exact powers of ten
+	// (log10(1000) = 2.9999999999999996): where the nearest integer is the exact answer, it is the answer
+	if r := math.Round(v); r != v && math.Abs(r-v) < 1e-9 && r >= -300 && r <= 300 && math.Pow(10, r) == x {
+		v = r
+	}
+	L.Push(LNumber(v))
 	return 1
 }
 
